@@ -203,6 +203,15 @@ def analyse(obs, spec):
         label = p["label"]
         st = obs.db_steps.get(label, {}).get("state")
         last = runs[label][-1] is p
+        # a run that is deferred (it announced an input that is not available yet) is covered by
+        # the other sentence of the property: it "runs again later instead of succeed", and the
+        # later run is judged on its own by (b) and (c); the fail-and-drain sentence is about
+        # runs that would otherwise have been recorded
+        later = [q for q in runs[label] if wins.get((q["label"], q["job_i"]), (0,))[0] > e]
+        nxt = min((wins[(q["label"], q["job_i"])][0] for q in later), default=float("inf"))
+        if any(r[1] == "report" and r[2] == "DEFERRED" and r[3] == label and e <= r[0] < nxt
+               for r in obs.log):
+            continue
         failed_after = [r for r in obs.log if r[1] == "report" and r[2] == "FAIL" and r[3] == label
                         and r[0] >= ev]
         if last and (st == "SUCCEEDED" or not failed_after):
